@@ -191,8 +191,23 @@ def _conv_wrappers():
             from .sbytes import join_bytes as jb
             return jb(b"", parts)
         return U.join_bytes(parts)
-    return {U.to_unicode: to_unicode, U.to_bytes: to_bytes, U.to_native_str: to_native_str, U.join_unicode: join_unicode,
-            U.join_bytes: join_bytes}
+    import passlib.utils.compat as K
+
+    def bascii_to_str(s):
+        if isinstance(s, SBytes):
+            return s.decode("ascii")
+        return K.bascii_to_str(s)
+
+    def str_to_bascii(s):
+        if isinstance(s, SStr):
+            return s.encode("ascii")
+        return K.str_to_bascii(s)
+    out = {U.to_unicode: to_unicode, U.to_bytes: to_bytes, U.to_native_str: to_native_str, U.join_unicode: join_unicode,
+           U.join_bytes: join_bytes}
+    for nm, f in (("bascii_to_str", bascii_to_str), ("str_to_bascii", str_to_bascii)):
+        if hasattr(K, nm):
+            out[getattr(K, nm)] = f
+    return out
 
 
 _ENGINES = {}
